@@ -43,7 +43,8 @@ def conv_case(flavour):
                 g0['time'], g0['rate'], g0['enthalpy'], g0['itab'] = [], [], [], ' '
                 m['generators'].append(g0)       # duplicated (block, name) key
         return {'k': 'to_tough2' if flavour == 'AUTOUGH2' else 'to_autough2', 'm': m, 'MP': draw(st.booleans()),
-                'via': draw(st.sampled_from(['method', 'method', 'setter']))}
+                'via': draw(st.sampled_from(['method', 'method', 'setter'])),
+                'held_history': draw(st.lists(st.sampled_from(['block', 'connection', 'generator']), max_size=2, unique=True))}
     return s()
 
 
@@ -62,7 +63,7 @@ def export_case():
         return {'k': 'export', 'rc': rc, 'eos': eosname, 'eos_via': draw(st.sampled_from(['argument', 'multi', 'simulator', 'simulator+multi', 'simulator+multi-blank-eos', 'simulator+multi-none-eos', 'multi-padded'])),
                 'rocks': draw(st.lists(st.integers(0, 2), min_size=1, max_size=12)),
                 'boundary': draw(st.lists(st.tuples(st.integers(0, 400), st.sampled_from(['zero', 'huge'])), max_size=3)),
-                'gens': gens}
+                'gens': gens, 'via_file': draw(st.booleans())}
     return s()
 
 
@@ -82,6 +83,17 @@ def run_to_tough2(case, R):
     m = case['m']
     with R.lib('build'):
         d = data.build(m)
+    # history requests the model already holds (an AUTOUGH2 model may carry FOFT/COFT/GOFT lists as well as SHORT): the
+    # kinds SHORT does not list must come through the conversion unchanged
+    sh_keys = set((data.extract(d).get('short') or {}).keys())
+    held = {}
+    for kind in case.get('held_history') or []:
+        if kind in sh_keys: continue
+        if kind == 'block' and d.grid.num_blocks: d.history_block = [d.grid.blocklist[-1]]; held['foft'] = [d.grid.blocklist[-1].name]
+        elif kind == 'connection' and d.grid.num_connections:
+            c = d.grid.connectionlist[0]; d.history_connection = [c]; held['coft'] = [[c.block[0].name, c.block[1].name]]
+        elif kind == 'generator' and d.grid.num_blocks: d.history_generator = [d.grid.blocklist[0]]; held['goft'] = [d.grid.blocklist[0].name]
+    if held: R.label('held-history:' + '+'.join(sorted(held)))
     before = data.extract(d)
     mop = [0] + [int(c) for c in m['param']['mop']]
     sim = m['simulator']
@@ -133,11 +145,19 @@ def run_to_tough2(case, R):
     if case['MP']:
         for k in (14, 17, 20, 21): R.check(opt[k] == 0, 'to_tough2:MP:mop%d' % k, 'MOP(%d) = %d' % (k, opt[k]))
     # history requests: SHORT -> FOFT/COFT/GOFT
+    for key, names in held.items():
+        got = after.get(key) or []
+        got = [list(x) if isinstance(x, (list, tuple)) else x for x in got]
+        R.check(got == names, 'to_tough2:held-history-changed:' + key, '%s %r, before the conversion %r (SHORT lists %r)' % (
+            key, got, names, sorted(sh_keys)))
     if short0:
+        short0 = dict(short0)
+        if 'foft' in held: short0['block'] = held['foft']
+        if 'coft' in held: short0['connection'] = held['coft']
         R.label('short:' + '+'.join(k for k in ('block', 'connection', 'generator') if short0.get(k)))
         R.check((after.get('foft') or []) == (short0.get('block') or []), 'to_tough2:history-blocks', '%r expected %r' % (after.get('foft'), short0.get('block')))
         R.check((after.get('coft') or []) == (short0.get('connection') or []), 'to_tough2:history-connections', '%r expected %r' % (after.get('coft'), short0.get('connection')))
-        eg = list(dict.fromkeys(b for b, _n in (short0.get('generator') or [])))
+        eg = list(dict.fromkeys(b for b, _n in (short0.get('generator') or []))) if 'goft' not in held else held['goft']
         R.check(sorted(set(after.get('goft') or [])) == sorted(set(eg)), 'to_tough2:history-generators',
                 'GOFT %r expected the blocks of the short-output generators %r' % (after.get('goft'), eg))
     nontriv = bool(short0) or any(not allowed_tough2(g['type']) for g in gens0) or c10 or c23
@@ -229,6 +249,13 @@ def run_export(case, R):
     for i, b in enumerate(und): b.rocktype = rocks[case['rocks'][i % len(case['rocks'])]]
     for i, kind in case['boundary']:
         if und: und[i % len(und)].volume = 0.0 if kind == 'zero' else 1e30
+    if case.get('via_file'):
+        # the model as a user gets it from a data file (blocks carry no in-memory atmosphere flag there)
+        fn = os.path.join(R.tmp, 'export.dat')
+        with R.lib('write'): d.write(fn)
+        with R.lib('read'): d = t2data.t2data(fn)
+        und = d.grid.blocklist[natm:]
+        R.label('export:model-read-from-file')
     eos = case['eos']
     via = case['eos_via']
     R.label('eos:' + eos, 'eos-via:' + via, 'atmos:%d' % g.atmosphere_type, 'order:%s' % g.block_order)
@@ -257,6 +284,9 @@ def run_export(case, R):
             'cells %r..., expected exactly the non-boundary blocks %r...' % (sorted(cells)[:6], sorted(expected)[:6]))
     for t in rj['rock']['types']:
         for c in t['cells']:
+            if not (isinstance(c, int) and 0 <= c + natm < len(g.block_name_list)):
+                R.fail('export:rock-cell-out-of-range', 'cell index %r under %r: the geometry has %d underground blocks' % (
+                    c, t['name'], len(g.block_name_list) - natm)); break
             n = g.block_name_list[c + natm]
             if d.grid.block[n].rocktype.name != t['name']:
                 R.fail('export:rock-cell-wrong-type', 'cell %d (block %r) listed under %r, block has %r' % (c, n, t['name'], d.grid.block[n].rocktype.name)); break
